@@ -7,7 +7,7 @@ QN = ["vf.tfuncs:t0#t", "vf.tfuncs:t1#t", "vf.tfuncs:t2#t", "vf.tfuncs:t3#t", "c
 PARAMS = ["tree", "node", "fnarg", "kw"]
 
 
-def gen_tree(rng, tree_id, n=None, with_context=False, with_prevent=False, aimed_batch=False, with_mut=False):
+def gen_tree(rng, tree_id, n=None, with_context=False, with_prevent=False, aimed_batch=False, with_mut=False, with_ignore=False):
     """nodes[j] = {"fn": i, "steps": [...], "fail": None|"memoized"|"transient"}; children have larger ids."""
     n = n or rng.randint(2, 7)
     nodes = [{"fn": rng.randrange(NFUN), "steps": [], "fail": None} for _ in range(n)]
@@ -30,6 +30,12 @@ def gen_tree(rng, tree_id, n=None, with_context=False, with_prevent=False, aimed
                 nodes[j]["steps"].append(["prevent", f, c])
             elif with_mut and r < 0.3:
                 nodes[j]["steps"].append(["mutcall", f, c])
+            elif with_ignore and r < 0.35:
+                if r < 0.2:
+                    nodes[j]["steps"].append(["igncall", f, c])
+                else:
+                    same = [x for x in later if nodes[x]["fn"] == f]
+                    nodes[j]["steps"].append(["ignbatch", f, [rng.choice(same) for _ in range(rng.randint(1, 3))]])
             elif r < 0.5:
                 nodes[j]["steps"].append(["call", f, c])
             elif r < 0.6:
@@ -141,8 +147,11 @@ def simulate(tree, root_fnarg=None, root_ctx=None):
 
         for step in spec["steps"]:
             k = step[0]
-            if k in ("call", "kwcall", "partial"):
+            if k in ("call", "kwcall", "partial", "igncall"):
                 sub(step[1], step[2])
+            elif k == "ignbatch":
+                for c in step[2]:
+                    sub(step[1], c)
             elif k == "mutcall":
                 sub(step[1], step[2], extra={"tag": [node]})
             elif k == "viaarg":
